@@ -1,4 +1,4 @@
-//go:build !(darwin && cgo) && !(linux && mutagensspl && mutagenfanotify) && !windows
+//go:build !(darwin && cgo) && !(linux && mutagensspl && mutagenfanotify) && !windows && !verif
 
 package watching
 
